@@ -730,6 +730,10 @@ class OrdinalNearestNeighbor(Ordinal):
     ) -> Union[Any, List[Any]]:
         if random_state is None:
             random_state = np.random
+        if not self._more_than_one_category:
+            # Single value: No internal interval to sample from
+            value = self.categories[0]
+            return [value] * size if size > 1 else value
         items = random_state.uniform(self._lower_int, self._upper_int, size=size)
         if size > 1:
             return [self.cast_int(x) for x in items]
